@@ -73,3 +73,11 @@ EXTRA += [
                                             "DsProofs.C01Obj.C01_obj_score_edited", "DsProofs.C01Obj.C01_obj_score_derived", "DsProofs.C01Obj.C01_obj_score_history"]),
     ("C19", "DsProofs.Properties.C01Obj", ["DsProofs.C01Obj.C01_obj_history"]),
 ]
+_R = "DsProofs.C13Round."
+EXTRA += [
+    ("C13", "DsProofs.Properties.C13Round", [_R + t for t in ["C13_round_point", "C13_round_point_magnitude", "C13_round_A_def", "C13_round_H_def", "C13_round_kernel",
+                                                               "C13_round_exact_le_A", "C13_round_A_le", "C13_round_kernel_bounded", "C13_round_twin", "C13_round_gamma",
+                                                               "C13_round_double", "C13_round_harmonic", "C13_round_double_kernel", "C13_round_double_twin",
+                                                               "C13_round_exact", "C13_round_flEx", "C13_round_flEx_differs", "C13_round_flEx_within"]]),
+    ("C06", "DsProofs.Properties.C13Round", [_R + "C13_round_kernel", _R + "C13_round_double_kernel"]),
+]
